@@ -16,6 +16,14 @@ ATTR = "HEX_IL_INSN_ATTR_"
 NMAX = 3
 
 
+def _tok(t):
+    # if-chain instead of TOKENS[t]: CrossHair forks on comparisons but realises symbolic list indices one value at a time
+    for i in range(len(TOKENS) - 1):
+        if t == i:
+            return TOKENS[i]
+    return TOKENS[-1]
+
+
 def _spec(events):
     cond = new = mw = mr = br = wp = False
     preds = []
@@ -66,7 +74,7 @@ def _run(pre_flags, pre_inst, pre_cls, events_in):
         ext.reset_flags()
         events = []
         for (t, flag, num) in events_in:
-            tok = TOKENS[t]
+            tok = _tok(t)
             if tok == "explicit_reg":
                 ext.set_token_meta_data(tok, is_new=flag)
             elif tok == "pred_write":
